@@ -53,6 +53,26 @@ class Dump:
             self.blob, self.layout = E.encode_v3(tm, chunks, blocks, fill1=b'stack', fill2=b'xx', fill3=b'y')
         self.ts2k = {1000 + 10 * k: k for k in range(1, len(stream) + 1)}
 
+    def cut_copy(self, rnd):
+        """the same version-2 dump cut somewhere after its thread map (C06): the complete records before the cut are its
+        events; cut inside a record => reading ends with an error after them"""
+        import copy
+        recs = [(a, b) for k, a, b in self.layout if k == 'rec']
+        if self.logs is not None or not recs:
+            return None
+        c = copy.copy(self)
+        cut = rnd.randrange(recs[0][0], recs[-1][1] + 1)
+        if rnd.random() < 0.3:
+            cut = rnd.choice(recs)[0]                       # exactly at a record boundary
+        n = sum(1 for a, b in recs if b <= cut)
+        c.blob = self.blob[:cut]
+        c.stream = self.stream[:n]
+        c.cut_mid = (cut - recs[0][0]) % 64 != 0
+        c.ts2k = {1000 + 10 * k: k for k in range(1, n + 1)}
+        return c
+
+    cut_mid = False
+
     def abstract(self):
         evs = []
         for k, a in enumerate(self.stream, 1):
